@@ -321,10 +321,33 @@ func c173(c *an.Ctx, p *an.Prog) {
 	{
 		var bad []string
 		n := 0
+		// a caller that hands NewStore's results on untouched ("return NewStore(…)": an opener helper) is not where
+		// the error is handled: its own callers are examined instead, against the same call (the path engine
+		// interprets such helpers inline, so the NewStore call event appears in their callers' paths)
+		type nsCaller struct {
+			fn   *ssa.Function
+			site ssa.CallInstruction
+		}
+		var work []nsCaller
 		for _, e := range p.Callers(ns, false) {
-			cf := e.Caller.Func
-			site, ok := e.Site.(ssa.CallInstruction)
-			if !ok {
+			if site, ok := e.Site.(ssa.CallInstruction); ok {
+				work = append(work, nsCaller{e.Caller.Func, site})
+			}
+		}
+		seenCaller := map[*ssa.Function]bool{}
+		for len(work) > 0 {
+			cf, site := work[0].fn, work[0].site
+			work = work[1:]
+			if seenCaller[cf] {
+				continue
+			}
+			seenCaller[cf] = true
+			if forwardsCallResults(cf, site) {
+				for _, e := range p.Callers(cf, false) {
+					if _, ok := e.Site.(ssa.CallInstruction); ok && e.Caller.Func != nil {
+						work = append(work, nsCaller{e.Caller.Func, site})
+					}
+				}
 				continue
 			}
 			n++
@@ -356,6 +379,27 @@ func c173(c *an.Ctx, p *an.Prog) {
 		}
 		c.Check(len(bad) == 0 && n >= 3, "C17.3", "NewStore-callers", p.Pos(ns.Pos()), fmt.Sprintf("%d callers: a NewStore error always ends in a non-zero exit / error", n), strings.Join(uniqS(bad), "; "))
 	}
+}
+
+// forwardsCallResults: every path of f runs the call and returns exactly its results, in order, without testing them.
+func forwardsCallResults(f *ssa.Function, site ssa.CallInstruction) bool {
+	n, ok := 0, true
+	an.EnumPaths(f, nil, nil, func(s *an.PathState) {
+		n++
+		idx := indexOfInstr(s.Events, site)
+		ret := lastReturn(s)
+		if idx < 0 || ret == nil || len(ret.Args) < 2 || callErrNonNil(s, s.Events[idx].Res) || callErrNil(s, s.Events[idx].Res) {
+			ok = false
+			return
+		}
+		for i, a := range ret.Args {
+			cc, j := a.CallOf()
+			if cc == nil || cc.K != s.Events[idx].Res.K || j != i {
+				ok = false
+			}
+		}
+	})
+	return ok && n > 0
 }
 
 func typeOfTerm(t *an.Term) string {
